@@ -12,7 +12,7 @@ DECIDES = ('the bounding box is computed from the unweighted control points (KD4
            'slot (AL6), and the cached box can never be stale after an edit of the control points (IV1 restricted to the bounding box cache, '
            'inductive over histories); the control points reported as active at a parameter are span - degree + i, i = 0..degree, per direction, '
            'of the same direction\'s span/degree/size (AG7) - the same set the evaluators accumulate over, which address the net canonically '
-           '(LY1, BP1); the approximate length sums the distance of every consecutive pair of sampled points exactly once (LN1). the sampled points whose hull/box containment is claimed are sampled over the domain: default start/stop are the domain ends of their direction (DOM1). a deep copy shares neither its control points nor its cached views with its source, so editing one never changes the box or the hull of the other (IV4).')
+           '(LY1, BP1); the approximate length sums the distance of every consecutive pair of sampled points exactly once (LN1). the sampled points whose hull/box containment is claimed are sampled over the domain: default start/stop are the domain ends of their direction (DOM1). a deep copy shares neither its control points nor its cached views with its source, so editing one never changes the box or the hull of the other (IV4). the rational evaluators evaluate the requested parameters (they forward start/stop to their parent: EV2).')
 NOT_DECIDED = ('hull containment itself, clamped end-point interpolation and the length bounds: they follow mathematically from non-negative partition of unity '
                '(C03, numerical) together with the structural facts above, and are not decided here.')
 TECHNIQUE = 'view/kind rule, comparison-orientation rule, cache typestate, index-range rule in polynomial normal form'
@@ -37,6 +37,7 @@ def check(m, run):
     ln1(m, run)
     from . import c17
     c17.dom1(m, run)
+    c17.ev2(m, run)
     rs.iv4_deepcopy(m, run)
     run.floor('LY1.canonical-stride', 3, 'surface/volume evaluators')
 
